@@ -110,6 +110,14 @@ def cases(rng, keys):
     out = [("valid", build(rng, sk))]
     for age in (-601, -600, -599, -1, 1, 599, 600, 601, 100000):
         out.append(("age%d" % age, build(rng, sk, age=age)))
+    # timestamps that are not integers: JSON numbers with a fraction, beyond every integer width, and the non-numbers rapidjson reads
+    # (NaN, Infinity) — "fresh" means within 600 s of now, and NaN is within nothing
+    for label, ts in (("ts-nan", float("nan")), ("ts-inf", float("inf")), ("ts-minus-inf", float("-inf")), ("ts-float-in", NOW - 0.5),
+                      ("ts-float-edge-old", NOW - 599.5), ("ts-float-out", NOW - 600.5), ("ts-huge", 10 ** 30), ("ts-bool", True)):
+        from aionostr.event import Event as _E
+        ev_ = _E(pubkey=sk.public_key.hex(), content="", kind=22242, created_at=ts, tags=[["relay", "ws://localhost:6969"], ["challenge", "chal-A"]])
+        ev_.sign(sk.hex())
+        out.append((label, ev_.to_json_object()))
     for k in (1, 22241, 22243, 0):
         out.append(("kind%d" % k, build(rng, sk, kind=k)))
     for r in ("", "ws", "ws://localhost:696", "ws://localhost:6969/", "wss://relay.example/", "wss://evil", None, "WS://LOCALHOST:6969"):
@@ -163,7 +171,10 @@ def run_auth_case(report, drv, auth, urls_eff, name, ev, challenge):
     except Exception:
         token, v = None, "raises"
     payload = {"case": name, "event": ev, "challenge": challenge, "valid_urls": urls_eff}
-    if isinstance(ev, dict) and "extra_field" not in ev or not isinstance(ev, dict):
+    int_ts = not isinstance(ev, dict) or (isinstance(ev.get("created_at"), int) and not isinstance(ev.get("created_at"), bool))
+    if not int_ts:
+        report.count("auth_answers_with_non_integer_timestamp")
+    if int_ts and (isinstance(ev, dict) and "extra_field" not in ev or not isinstance(ev, dict)):
         mf = model_facts(ev, urls_eff, challenge)
         mv = drv.call({"op": "adm.auth", "now": NOW, "facts": mf})
         if mv != v:
